@@ -49,6 +49,27 @@ def path_to_script(path, tag=0):
                 out.append("decode s%d %d %d 0 -100 0 0 1 1" % (s, s, s))
         elif op == "dec_cleanup":
             out.append("dec_cleanup s%d %d 0" % (stp["s"], stp["s"]))
+        elif op == "create_fail":
+            # the backend's init operation fails (stub in the backend's operation table, fires at its first call)
+            c = stp["cfg"]
+            s = stp["s"]
+            out.append("arm %d 0 1 0" % c["be"])
+            out.append("create %d %d %d %d %d %d %d" % (s, c["be"], c["k"], c["m"], c["hd"], c["w"], c["ct"]))
+            out.append("disarm")
+        elif op in ("encode_fail", "decode_fail", "recon_fail"):
+            s = stp["s"]
+            c = cfg.get(s, {"k": 2, "m": 1})
+            variant = (tag + len(out)) % 2          # fail before / after doing the work
+            out.append("arm %d %d 1 %d" % (stp["be"], {"encode_fail": 1, "decode_fail": 2, "recon_fail": 3}[op], variant))
+            if op == "encode_fail":
+                out.append("encode s%d %d %d %d 0 0" % (s, s, 40 + 3 * s + tag % 7, 100 + s))
+            else:
+                idx = _idx_list(c["k"], c["m"], {0})
+                if op == "decode_fail":
+                    out.append("decode s%d %d %d 0 -100 0 0 %d %s" % (s, s, s, len(idx), " ".join(map(str, idx))))
+                else:
+                    out.append("recon s%d %d 0 0 -100 0 0 %d %s" % (s, s, len(idx), " ".join(map(str, idx))))
+            out.append("disarm")
     out.append("probe")
     return out
 
